@@ -367,6 +367,10 @@ def minimise(vapi, case, workdir, still_fails):
 
 
 def classify_problem(p, case=None):
+    m = re.match(r"(parser panicked|validate panicked on an error-free tree|rendering the \w+ diagnostics panicked) at (\S+?:\d+)", p)
+    if m:
+        # the exact panic site: a known finding for one site must not hide a panic at another one in the same file
+        return f"{m.group(1)} at {m.group(2)}"
     p = re.sub(r"\d+", "N", p)
     if p.startswith("cyclic / too deep") and case is not None:
         nested = sum(1 for t in case["files"].values() if re.search(r"feature\s+\w+\s*\{[^}]*include", t))
